@@ -2,7 +2,7 @@
 import warnings
 from hypothesis import strategies as st
 
-from amaranth.hdl import (Module, ClockDomain, Signal, Cat, ClockSignal, ResetSignal, ResetInserter, EnableInserter,
+from amaranth.hdl import (signed, Module, ClockDomain, Signal, Cat, ClockSignal, ResetSignal, ResetInserter, EnableInserter,
                           DomainRenamer, Elaboratable)
 from amaranth.lib.memory import Memory
 from amaranth.sim import Simulator
@@ -91,7 +91,7 @@ def draw_node(draw, depth, local_doms, prog_depth):
         prog["env"].append([3, False]); prog["dom"][str(k)] = d; prog["init"][str(k)] = draw(INT(0, 7))
         prog["body"].append(["assign", ["sig", k], ["b", "+", ["sig", k], ["sig", prog["inputs"][0]]]])
     node = {"prog": prog, "local": list(local_doms),
-            "split": {"init": draw(INT(0, 15)), "cut": draw(INT(1, 3)),
+            "split": {"init": draw(INT(0, 15)), "cut": draw(INT(1, 3)), "signed": draw(BOOL),
                       "lo": PICK(draw, list(local_doms) + ["comb"]), "hi": PICK(draw, list(local_doms))},
             "mem": None, "children": []}
     if node["split"]["lo"] == node["split"]["hi"]:
@@ -225,7 +225,8 @@ class NodeElab(Elaboratable):
         self.b = build_program(prog, module=m, make_domains=False)
         self.m = m
         sp = node["split"]
-        self.split = Signal(4, init=sp["init"], name="split")
+        sinit = sp["init"] - 16 if sp.get("signed") and sp["init"] >= 8 else sp["init"]
+        self.split = Signal(signed(4) if sp.get("signed") else 4, init=sinit, name="split")
         self.split_in = Signal(4, name="split_in")
         m.d[sp["lo"]] += self.split[:sp["cut"]].eq(self.split_in[:sp["cut"]])
         m.d[sp["hi"]] += self.split[sp["cut"]:].eq(self.split_in[sp["cut"]:])
@@ -475,7 +476,8 @@ def body(ctx, case):
                                     controls=(ref.ctrl[dn][0] if dn in ref.ctrl else None), expected=ref.vals[k], actual=got,
                                     wrappers=[nodes[j]["wrappers"] for j in range(len(nodes))], reset_less=k in it.rl)
             got = c.get(e.split)
-            if got != ref.split:
+            want = ref.split - 16 if ref.node["split"].get("signed") and ref.split >= 8 else ref.split
+            if got != want:
                 return Mismatch("split-signal", step=step, event=ev, node=i, split=ref.node["split"], expected=ref.split, actual=got,
                                 controls={d: ref.ctrl[d] for d in ref.node["local"]})
             for d in ref.node["local"]:
